@@ -88,28 +88,54 @@ HasFixedNoMake(ir) ==
     [] ir.k = "map" -> HasFixedNoMake(ir.kx) \/ HasFixedNoMake(ir.vx)
     [] OTHER -> HasFixedNoMake(ir.x)
 
+\* does the IR take the address of a position that was not copied (valptr directly over share: `&source[i]`,
+\* `&(*source).F`)?  Under skipCopySameType, T -> *T for an unnamed non-basic T is emitted like this.
+RECURSIVE HasValptrShare(_)
+HasValptrShare(ir) ==
+  CASE ir.k \in {"copy", "share", "fail"} -> FALSE
+    [] ir.k = "valptr" -> ir.x.k = "share" \/ HasValptrShare(ir.x)
+    [] ir.k = "struct" -> \E i \in DOMAIN ir.fs : HasValptrShare(ir.fs[i])
+    [] ir.k = "map" -> HasValptrShare(ir.kx) \/ HasValptrShare(ir.vx)
+    [] OTHER -> HasValptrShare(ir.x)
+
 \* ---------------------------------------------------------------- Eval: what the emitted code computes
+(* Eval(ir, v, loc): loc is the memory the current source expression lives in -- "copy" for a by-value
+   parameter, a range variable or a temporary, otherwise the label of the cell it is part of (pointee of a
+   dereferenced pointer, backing array of an indexed slice; struct fields and array elements inherit it).
+   It matters in exactly one place: taking the address of an uncopied position.                             *)
 AnyPanic(seq) == \E i \in DOMAIN seq : IsPanic(seq[i])
-Fresh(v) == v   \* result cells are labelled "o" by construction below
-RECURSIVE Eval(_,_)
-Eval(ir, v) ==
+(* Writes(ir, v): does the code emitted in *assign* position for an element/field with pattern ir execute a
+   write to its target for source value v?  Pointer, slice, map and *T->T patterns assign only inside their
+   nil guard; a struct assigns field by field; everything built as an expression is always assigned.        *)
+RECURSIVE Writes(_,_)
+Writes(ir, v) ==
+  CASE ir.k \in {"ptrptr", "slice", "map", "ptrval"} -> v # Nil
+    [] ir.k = "struct" -> Len(ir.fs) > 0 /\ Writes(ir.fs[1], v.fs[1])
+    [] ir.k = "fixed" -> ir.make \/ \E i \in DOMAIN v.es : Writes(ir.x, v.es[i])
+    [] OTHER -> TRUE
+RECURSIVE Eval(_,_,_)
+Eval(ir, v, loc) ==
   CASE ir.k \in {"copy", "share"} -> v
-    [] ir.k = "call" -> Eval(ir.x, v)
-    [] ir.k = "valptr" -> LET x == Eval(ir.x, v) IN IF IsPanic(x) THEN Panic ELSE [k |-> "p", a |-> "o", e |-> x]
+    [] ir.k = "call" -> Eval(ir.x, v, "copy")
+    [] ir.k = "valptr" -> LET x == Eval(ir.x, v, loc) IN
+                          IF IsPanic(x) THEN Panic
+                          ELSE [k |-> "p", a |-> IF ir.x.k = "share" /\ loc # "copy" THEN loc ELSE "o", e |-> x]
     [] ir.k = "ptrptr" -> IF v = Nil THEN Nil ELSE
-                          LET x == Eval(ir.x, v.e) IN IF IsPanic(x) THEN Panic ELSE [k |-> "p", a |-> "o", e |-> x]
-    [] ir.k = "ptrval" -> IF v = Nil THEN Zero(ir.zt) ELSE Eval(ir.x, v.e)
+                          LET x == Eval(ir.x, v.e, v.a) IN IF IsPanic(x) THEN Panic ELSE [k |-> "p", a |-> "o", e |-> x]
+    [] ir.k = "ptrval" -> IF v = Nil THEN Zero(ir.zt) ELSE Eval(ir.x, v.e, v.a)
     [] ir.k = "struct" -> IF Len(ir.fs) = 0 THEN [k |-> "st", fs |-> <<>>]
-                          ELSE LET x == Eval(ir.fs[1], v.fs[1]) IN
+                          ELSE LET x == Eval(ir.fs[1], v.fs[1], loc) IN
                                IF IsPanic(x) THEN Panic ELSE [k |-> "st", fs |-> <<x>>]
     [] ir.k = "slice" -> IF v = Nil THEN Nil ELSE
-                          LET es == [i \in DOMAIN v.es |-> Eval(ir.x, v.es[i])] IN
+                          LET es == [i \in DOMAIN v.es |-> Eval(ir.x, v.es[i], v.a)] IN
                           IF AnyPanic(es) THEN Panic ELSE [k |-> "s", a |-> "o", es |-> es]
-    [] ir.k = "fixed" -> IF ~ir.make THEN Panic      \* target[i] = ... on a nil slice, array length is 2
-                          ELSE LET es == [i \in DOMAIN v.es |-> Eval(ir.x, v.es[i])] IN
+    [] ir.k = "fixed" -> IF ~ir.make                  \* no make(): the first executed write indexes a nil slice
+                          THEN (IF \E i \in DOMAIN v.es : Writes(ir.x, v.es[i]) THEN Panic ELSE Nil)
+                          ELSE LET es == [i \in DOMAIN v.es |-> Eval(ir.x, v.es[i], loc)] IN
                                IF AnyPanic(es) THEN Panic ELSE [k |-> "s", a |-> "o", es |-> es]
     [] ir.k = "map" -> IF v = Nil THEN Nil ELSE
-                          LET kv == {<<Eval(ir.kx, p[1]), Eval(ir.vx, p[2])>> : p \in v.kv} IN
+                          LET kv == {<<Eval(ir.kx, p[1], "copy"), Eval(ir.vx, p[2], "copy")>> : p \in v.kv} IN
                           IF \E p \in kv : IsPanic(p[1]) \/ IsPanic(p[2]) THEN Panic
                           ELSE [k |-> "m", a |-> "o", kv |-> kv]
+EvalTop(ir, v) == Eval(ir, v, "copy")
 =============================================================================
